@@ -4,7 +4,7 @@ Offline trace checker over the interleaved signal / statement / transaction
 log of real Evolver.evolve() runs: fault-free upgrades, runs with nothing to
 do, runs with an injected failure at every statement index, and the retries.
 """
-from .. import faultlab, labenv
+from .. import faultlab, labenv, projlab, seqcase
 from .. import specs as S
 
 ID = 'C17'
@@ -31,6 +31,7 @@ FLOORS = {'quick': {'nontrivial': 100, 'runs_checked': 150,
                        'pairs_checked': 1500}}
 SIZES = {'quick': 64, 'thorough': 600}
 TIMEOUT = {'quick': 170, 'thorough': 1700}
+HANDOVERS = {'quick': 16, 'thorough': 150}
 PAIRS = {'applying_evolution': 'applied_evolution',
          'applying_migration': 'applied_migration',
          'creating_models': 'created_models'}
@@ -43,7 +44,9 @@ def eff_seed(seed):
 def plan(tier, seed):
     es = eff_seed(seed)
     return [{'mode': 'upgrade', 'seed': es, 'i': i}
-            for i in range(SIZES[tier])]
+            for i in range(SIZES[tier])] + \
+        [{'mode': 'handover', 'seed': es, 'i': i}
+         for i in range(HANDOVERS[tier])]
 
 
 def worker_setup():
@@ -184,11 +187,71 @@ def check_run(rec, phase, h, labels_before, items, stats):
     return bool(sigs) and (inrun_seen > 0 or phase == 'fault')
 
 
+class _Shim(object):
+    pass
+
+
+def run_handover(desc):
+    """The C10 hand-over projects (evolutions + MoveToDjangoMigrations +
+    real migrations) under the same fault loop."""
+    from . import c10
+    rng = seqcase.rng_for('C17h', desc['seed'], desc['i'])
+    proj = projlab.Project()
+    try:
+        # every third project hands over without marking the initial
+        # migration (it is then soft-applied through the executor)
+        unmarked = desc['i'] % 3 == 1
+        b, early = c10.build(rng, proj, desc,
+                             force_mark=[] if unmarked else None)
+        if early is not None:
+            early['stats'] = {'skipped_setup_failed': 1}
+            return None, early, None
+        start = rng.choice(['fresh', 'evolved', 'evolved'])
+        if unmarked:
+            start = 'evolved'
+        if start == 'evolved':
+            v0 = rng.randint(0, b['k'])
+            ev = proj.run('evolve_api', version=v0, db='base.db',
+                          apps=b['apps'], migmods=b['migmods_off'],
+                          app_versions=b['av'])
+            if ev.get('driver_error') or not ev['outcome']['ok']:
+                return None, {'key': b['key'], 'nontrivial': False,
+                              'items': [], 'case': None,
+                              'stats': {'skipped_setup_failed': 1}}, None
+            proj.insert_rows(seqcase.gen_rows(
+                rng, {'app1': b['versions'][v0]}, max_rows=2), 'base.db')
+        else:
+            open(proj.path('base.db'), 'w').close()
+        res = proj.run('fault_loop', version=b['vfinal'], db='work.db',
+                       apps=b['apps'], migmods=b['migmods_on'],
+                       app_versions=b['av'],
+                       args={'base_db': proj.path('base.db'), 'max_k': 40,
+                             'scope': 'all'}, timeout=300)
+    finally:
+        proj.cleanup()
+    h = _Shim()
+    h.specs = [{'app1': v, 'app2': {'Z': {'fields': [], 'meta': {}}}}
+               for v in b['versions']]
+    h.steps = [[]]
+    case = {'handover': True, 'k': b['k'], 'm': b['m'], 'mark': b['mark'],
+            'start': start, 'migrations': b['expected_names'],
+            'evolutions': [e[0] for e in b['evolutions']],
+            'new_models': [] if start == 'evolved' else ['*']}
+    return h, res, (case, S.canon([b['key'], start, 'handover']))
+
+
 def run_case(desc):
-    h, res = faultlab.run_upgrade('C17', desc, max_k=40, scope='all')
-    case = faultlab.case_of(h)
-    key = S.canon([h.specs, h.steps])
-    stats, items = {'upgrades': 1}, []
+    if desc.get('mode') == 'handover':
+        h, res, extra = run_handover(desc)
+        if h is None:
+            return res
+        case, key = extra
+        stats, items = {'handovers': 1}, []
+    else:
+        h, res = faultlab.run_upgrade('C17', desc, max_k=40, scope='all')
+        case = faultlab.case_of(h)
+        key = S.canon([h.specs, h.steps])
+        stats, items = {'upgrades': 1}, []
     if res.get('install_error') or res.get('driver_error'):
         return {'key': key, 'nontrivial': False, 'items': [],
                 'stats': {'skipped_setup_failed': 1}, 'case': case,
@@ -212,6 +275,10 @@ def run_case(desc):
         stats['fault_runs'] = stats.get('fault_runs', 0) + 1
     for it in items:
         it['new_models'] = bool(case['new_models'])
+        if case.get('handover'):
+            it['handover'] = True
+            it['mark_has_initial'] = '0001_initial' in case['mark']
+            it['start'] = case['start']
     return {'key': key, 'nontrivial': nt > 0, 'items': items,
             'stats': stats, 'case': case,
             'weight': stats.get('runs_checked', 1),
